@@ -6,7 +6,7 @@ from ..astutil import FUNC_TYPES, attr_chain, dotted, norm, walk_shallow
 from ..cfg import live_nodes, node_calls
 from ..loader import AnalysisError
 from . import runmodel
-from .common import RUNTEST, TESTCASE, cfg_of, has_kw, kw_value, nodes_calling, own_method
+from .common import literal_elements, RUNTEST, TESTCASE, cfg_of, has_kw, kw_value, nodes_calling, own_method
 from .runmodel import RERAISE, SENT, USER_EXC
 
 EXPLANATION = (
@@ -208,8 +208,10 @@ def run(ctx):
     onex = own_method(ctx, TESTCASE, "TestCase", "onException")
     quiet = None
     for n in walk_shallow(onex, include_self=False):
-        if isinstance(n, ast.Compare) and isinstance(n.ops[0], (ast.NotIn, ast.In)) and isinstance(n.comparators[0], (ast.List, ast.Tuple, ast.Set)):
-            quiet = {resolve_class_expr(e)[0] for e in n.comparators[0].elts}
+        if isinstance(n, ast.Compare) and isinstance(n.ops[0], (ast.NotIn, ast.In)):
+            elts = literal_elements(n.comparators[0], n)
+            if elts is not None:
+                quiet = {resolve_class_expr(e)[0] for e in elts}
     ctx.check("R-HANDLER-TABLE", "onException suppresses tracebacks for exactly the three signal classes", onex,
               quiet == {"SkipTest", "_UnexpectedSuccess", "_ExpectedFailure"},
               f"no-traceback list is {sorted(quiet) if quiet else quiet}", construct=f"{TESTCASE}:TestCase.onException::quiet-list")
@@ -227,23 +229,18 @@ def run(ctx):
              for n in walk_shallow(init_rt, include_self=False))
     ctx.check("R-FIRST-MATCH", "RunTest keeps the handler list in the order given", init_rt, ok, "RunTest.__init__ reorders the handlers", construct=f"{Q}.__init__::order")
     # ------------------------------------------------------------------ expectThat forces failure
-    et = own_method(ctx, TESTCASE, "TestCase", "expectThat")
-    g = cfg_of(ctx, et)
-    lv = live_nodes(g)
-    raises = [n for n in g.nodes if n.id in lv and n.kind == "raise"]
-    ctx.check("R-EXPECT-FORCES", "expectThat contains no raise", et, not raises, "expectThat raises instead of delaying the failure", construct=f"{TESTCASE}:TestCase.expectThat::no-raise")
-    sets = [n.id for n in g.nodes if n.id in lv and n.kind == "stmt" and isinstance(n.ast, ast.Assign) and dotted(n.ast.targets[0]) == "self.force_failure"
-            and isinstance(n.ast.value, ast.Constant) and n.ast.value.value is True]
-    guard = [n for n in g.nodes if n.id in lv and n.kind == "test" and "is not None" in norm(n.ast.test)]
-    ok = len(sets) == 1 and len(guard) == 1
-    if ok:
-        gvar = norm(guard[0].ast.test).split(" is not None")[0]
-        src = [n for n in walk_shallow(et, include_self=False) if isinstance(n, ast.Assign) and dotted(n.targets[0]) == gvar and isinstance(n.value, ast.Call) and dotted(n.value.func) == "self._matchHelper"]
-        true_succ = [b for b, k in g.succ[guard[0].id] if k == "true"]
-        esc = g.escape_path(true_succ, set(sets), targets=[g.exit_return])
-        ok = bool(src) and esc is None
-    ctx.check("R-EXPECT-FORCES", "mismatch arm sets force_failure on every path", et, ok,
-              "a mismatch seen by expectThat does not always set self.force_failure = True", construct=f"{TESTCASE}:TestCase.expectThat::sets-flag")
+    # expectThat itself, on an abstract run with the matcher's verdict symbolic (shared with C07 R-ASSERT-IFF)
+    from .c07 import verdict_outcomes
+    et, outs = verdict_outcomes(ctx, "expectThat")
+    for verdict, kind, forced in sorted(outs, key=repr):
+        if verdict == "?":
+            ok, msg = False, "a path of expectThat returns without having consulted matcher.match()"
+        else:
+            ok = kind == "val" and (forced == 1) == (verdict == "mismatch")
+            msg = f"expectThat with verdict {verdict}: {'raises' if kind == 'exc' else 'returns'}, force_failure {'set' if forced else 'not set'} (a mismatch must set the flag and not raise; a match must do neither)"
+        ctx.check("R-EXPECT-FORCES", f"expectThat: verdict={verdict} -> {'raise' if kind == 'exc' else 'return'}{' +force_failure' if forced else ''}", et, ok, msg,
+                  construct=f"{TESTCASE}:TestCase.expectThat::verdict={verdict} kind={kind} forced={forced}")
+    ctx.check("R-EXPECT-FORCES", "expectThat: both verdicts explored", et, {v for v, _, _ in outs} >= {"none", "mismatch"}, f"explored {sorted(outs)}", construct=f"{TESTCASE}:TestCase.expectThat::explored")
     # the runner side, decided on the abstract run (no particular statement layout is required):
     # whenever the flag is set -- or may be set because nothing examined it after the last user
     # stage -- the run ends unsuccessfully
